@@ -257,11 +257,93 @@ def _listening_port(pid):
     return None
 
 
+class HookCtl:
+    """Controller side of the build-tagged hook points (src/verif_on.go): fzf reports "<id> <name>" when a goroutine
+    reaches a listed point and blocks until "<id>" is sent back. The driver thereby decides internal orderings."""
+
+    def __init__(self, directory, points, auto=()):
+        import socket
+        self.path = os.path.join(directory, "hk")
+        self.srv = socket.socket(socket.AF_UNIX)
+        self.srv.bind(self.path)
+        self.srv.listen(1)
+        self.srv.setblocking(False)
+        self.conn = None
+        self.buf = b""
+        self.points = list(points)
+        self.auto = set(auto)       # names released as soon as they are seen
+        self.parked = []            # [(id, name)] currently held
+        self.log = []               # every point seen, in order
+
+    def env(self):
+        return {"FZF_VERIF_SOCK": self.path, "FZF_VERIF_POINTS": ",".join(self.points)}
+
+    def service(self):
+        if self.conn is None:
+            try:
+                self.conn, _ = self.srv.accept()
+                self.conn.setblocking(False)
+            except (BlockingIOError, OSError):
+                return
+        try:
+            while True:
+                d = self.conn.recv(65536)
+                if not d:
+                    break
+                self.buf += d
+        except (BlockingIOError, OSError):
+            pass
+        while b"\n" in self.buf:
+            line, self.buf = self.buf.split(b"\n", 1)
+            parts = line.decode().split()
+            if len(parts) != 2:
+                continue
+            pid_, name = int(parts[0]), parts[1]
+            self.log.append(name)
+            if name in self.auto:
+                self._send(pid_)
+            else:
+                self.parked.append((pid_, name))
+
+    def _send(self, pid_):
+        try:
+            self.conn.sendall(b"%d\n" % pid_)
+        except OSError:
+            pass
+
+    def held(self, name):
+        return [i for i, n in self.parked if n == name]
+
+    def release(self, name=None, ident=None):
+        """release one parked point (oldest with that name); returns True if something was released"""
+        for k, (i, n) in enumerate(self.parked):
+            if (ident is not None and i == ident) or (ident is None and (name is None or n == name)):
+                del self.parked[k]
+                self._send(i)
+                return True
+        return False
+
+    def release_all(self, auto_from_now=True):
+        if auto_from_now:
+            self.auto = set(self.points) | {"*"}
+        while self.parked:
+            i, _ = self.parked.pop(0)
+            self._send(i)
+
+    def close(self):
+        for x in (self.conn, self.srv):
+            try:
+                if x is not None:
+                    x.close()
+            except OSError:
+                pass
+
+
 class Session:
     """One real fzf process under a fresh pty."""
 
     def __init__(self, args, lines=None, rows=12, cols=40, env=None, listen=True, stdin_data=None, keep_stdin=False,
-                 binary=None, sep="\n", cwd=None, api_key=None):
+                 binary=None, sep="\n", cwd=None, api_key=None, hook_points=None, hook_auto=()):
         os.makedirs(WORKROOT, exist_ok=True)
         self.tmp = tempfile.mkdtemp(prefix="s-", dir=WORKROOT)
         self.tmpdir = os.path.join(self.tmp, "tmp")
@@ -273,6 +355,10 @@ class Session:
         argv = ["fzf"] + (["--listen"] if listen else []) + list(args)
         e = base_env(self.tmpdir, env)
         e["HOME"] = self.tmp
+        self.hooks = None
+        if hook_points:
+            self.hooks = HookCtl(self.tmp, hook_points, hook_auto)
+            e.update(self.hooks.env())
         if api_key:
             e["FZF_API_KEY"] = api_key
         self.pid, self.master = pty.fork()
@@ -351,6 +437,8 @@ class Session:
 
     def pump(self, timeout=0.02):
         got = False
+        if self.hooks is not None:
+            self.hooks.service()
         while self.open_fds:
             try:
                 r, _, _ = select.select(self.open_fds, [], [], timeout)
@@ -542,6 +630,8 @@ class Session:
                 except OSError:
                     pass
         self.win = None
+        if self.hooks is not None:
+            self.hooks.close()
         shutil.rmtree(self.tmp, ignore_errors=True)
 
 
